@@ -63,7 +63,17 @@ impl Formatter for EmptyLineRemover {
             .is_none();
 
         if is_not_next_line_empty && is_not_prev_line_empty {
-            (byte_pos, byte_pos + 1)
+            // When nothing but blanks (and line breaks of removed lines) precedes the position,
+            // they are what is left of the removed lines' indentation at the start of the
+            // content; there is no line break before them for the indent remover to find.
+            // Remove them together with the line break, otherwise they end up in front of the
+            // next line.
+            let is_leading_indent = bytes[..byte_pos]
+                .iter()
+                .all(|b| *b == b' ' || *b == b'\t' || *b == b'\n');
+            let start = if is_leading_indent { 0 } else { byte_pos };
+
+            (start, byte_pos + 1)
         } else {
             (byte_pos, byte_pos)
         }
